@@ -26,7 +26,7 @@ def run(report, tier):
     hs = [
         Harness(name="tables/blocks", module="harness.c01", body="body_blocks", sig="sel: int", n_sel=H.N_BLOCKS,
                 claim="one table per distinct mother, file order, first block kept, empty block = table without lines; every line once",
-                bounds="every sequence of 0..5 Decay blocks over 3 mother names x 3 interleavings with other statements; 0..2 lines per block",
+                bounds=f"every sequence of 0..{6 if thorough else 5} Decay blocks over 3 mother names x 3 interleavings with other statements; 0..2 lines per block",
                 functions=PARSE_FUNCS, timeout=t, concrete_body=True, sample={"blocks": ["B0", "K~0", "B0"], "between": "Define/Alias"}),
         Harness(name="tables/lines", module="harness.c01", body="body_lines", sig="sel: int", n_sel=H.N_LINES,
                 claim="each line reported once in file order with bf = float(literal), daughters verbatim, PHOTOS flag, model",
